@@ -11,9 +11,7 @@ def E(p, k, c="", lt=None, h=0, **meta):
         if lt and lt[0] == "":            # absolute spelling "/x/y" means sandbox-absolute
             lt = ["/ABS"] + lt[1:]
         c = "/".join(lt)
-    d = {"p": p, "k": k, "c": c, "lt": lt or [], "h": h}
-    if meta:
-        d["meta"] = meta
+    d = {"p": p, "k": k, "c": c, "lt": lt or [], "h": h, "meta": dict(meta)}
     return d
 
 def A(spelling):
